@@ -241,9 +241,29 @@ def reload_and_call_scenarios(seed, n):
             models = [{"id": "m1", "steps": [s1, {"id": "s2", "acts": [{"id": "a9", "uses": gen.IRQ, "key": "ka9"}]}]}]
             ops = [["deploy", 0], ["start", "m1", {"pid": "p1"}], ["runall"], ["act", "error", "p1", {"nid": "a1", "k": 0}, {"ecode": "e1", "message": "x"}], ["runall"], cut]
             kind = "catch"
-        for _ in range(4):
+        exprs = {}
+        if i % 5 == 3:
+            # the error of a sub-process comes back to a calling act that declares a catch: the call completes after the handler
+            from . import c06
+            sc = c06.call_catch_scenario(rng.fork("cc"), i)
+            models, ops, exprs, kind = sc["models"], sc["ops"][:-12], sc["exprs"], "call-catch"
+            store = "mem"
+        elif i % 5 == 4:
+            # a needs-branch whose needed sibling ends in error, the error taken by the catch of the owning step: an ended sibling is an
+            # ended sibling, the branch is woken
+            handler = rng.pick([[], [{"id": "hs", "acts": [{"id": "hfix", "uses": gen.IRQ, "key": "khfix"}]}], [{"id": "hs", "acts": [{"id": "hm", "uses": gen.MSG, "key": "khm"}]}]])
+            brs = [{"id": "bA", "if": "(x == 0)", "steps": [{"id": "sA", "acts": [{"id": "a", "uses": gen.IRQ, "key": "ka"}]}]},
+                   {"id": "bN", "needs": ["bA"], "steps": [{"id": "sN", "acts": [{"id": "n", "uses": gen.IRQ, "key": "kn"}]}]}]
+            s1 = {"id": "s1", "branches": rng.shuffle(brs), "catches": [{"steps": handler}]}
+            models = [{"id": "m1", "steps": [s1, {"id": "s2", "acts": [{"id": "a9", "uses": gen.IRQ, "key": "ka9"}]}]}]
+            exprs = {"(x == 0)": ["bin", "==", ["var", "x"], ["lit", 0]]}
+            ops = [["deploy", 0], ["start", "m1", {"pid": "p1", "x": 0, "y": 0}], ["runall"],
+                   ["act", "error", "p1", {"nid": "a", "k": -1}, {"ecode": "e1", "message": "x"}], ["runall"]]
+            kind = "needs-error"
+            store = "mem"
+        for _ in range(5):
             ops += [["act", "next", "p1", {"open": 0}, {}], ["runall"]]
-        scs.append({"id": f"c01-rc-{seed}-{i}", "config": {"keep": keep, "store": store, "dump_each": True}, "models": models, "ops": ops, "exprs": {}, "kind": kind,
+        scs.append({"id": f"c01-rc-{seed}-{i}", "config": {"keep": keep, "store": store, "dump_each": True}, "models": models, "ops": ops, "exprs": exprs, "kind": kind,
                     "features": ["reload", kind]})
     return scs
 
